@@ -227,17 +227,12 @@ Section Scope.
       + exact IH.
   Qed.
 
+  (* is_prefix_defined: the prefix is bound (xmlns="" is no binding) *)
   Theorem is_prefix_defined_spec z p :
-    is_prefix_defined xml_prefix xml_ns z p = true <-> nearest z p <> None.
+    legal z -> (is_prefix_defined xml_prefix no_ns xml_ns z p = true <-> bound z p <> None).
   Proof.
-    unfold is_prefix_defined, nearest, chain. rewrite assoc_p_app, orb_true_iff, has_prefix_assoc.
-    assert (existsb (fun a => has_prefix p (declarations a)) (ancestors z) = true
-            <-> assoc_p p (concat (map declarations (ancestors z))) <> None) as ->.
-    { induction (ancestors z) as [|a l IH]; cbn; [split; [discriminate|intros H; exfalso; apply H; reflexivity]|].
-      rewrite orb_true_iff, assoc_p_app, has_prefix_assoc, IH.
-      destruct (assoc_p p (declarations a)); split; auto; try discriminate; intros [H|H]; auto; exfalso; apply H; reflexivity. }
-    destruct (assoc_p p (concat (map declarations (ancestors z)))); split; auto; try discriminate.
-    intros [H|H]; [exfalso; apply H; reflexivity|exact H].
+    intros L. unfold is_prefix_defined. rewrite (namespace_for_prefix_spec z p L).
+    destruct (bound z p); split; intros H; try reflexivity; try discriminate; try congruence.
   Qed.
 
   (* ---------- qualified names ---------- *)
